@@ -113,21 +113,31 @@ class Cfg:
                     self.defs[m.group(1)] = (lab, m.group(2))
 
 
-def guard_implies_ne_last(cfg, cond, P, first, last, depth=0):
-    """does `cond == false` imply P != last (or that P == first has room)?"""
+def guard_implies_ne_last(cfg, cond, P, first, last, depth=0, truth=False):
+    """does `cond == truth` imply P != last (or that P == first has room)?  Both spellings of the test are recognised:
+    `if (p == last || ...) fail; store` (the store on the false edge of an or of eq tests) and
+    `if (p != nullptr && p != last) store` (the store on the true edge of an and of ne tests)."""
     if cond not in cfg.defs or depth > 4:
         return False
     body = cfg.defs[cond][1]
-    m = re.match(r"^icmp eq i8\* (%\S+), (%\S+|null)$", body)
+    m = re.match(r"^icmp (eq|ne) i8\* (%\S+), (%\S+|null)$", body)
     if m:
-        a, b = m.group(1), m.group(2)
+        a, b = m.group(2), m.group(3)
+        if (m.group(1) == "eq") != (not truth):
+            return False
         return {a, b} == {P, last} or ({a, b} == {first, last} and P == first)
-    m = re.match(r"^or i1 (%\S+), (%\S+)$", body) or re.match(r"^select i1 (%\S+), i1 true, i1 (%\S+)$", body)
+    m = re.match(r"^xor i1 (%\S+), true$", body)
     if m:
-        return guard_implies_ne_last(cfg, m.group(1), P, first, last, depth + 1) or guard_implies_ne_last(cfg, m.group(2), P, first, last, depth + 1)
-    m = re.match(r"^icmp slt i64 (%\S+), 2$", body)
-    if m and P == first and m.group(1) in cfg.defs:
-        d = cfg.defs[m.group(1)][1]
+        return guard_implies_ne_last(cfg, m.group(1), P, first, last, depth + 1, not truth)
+    if not truth:
+        m = re.match(r"^or i1 (%\S+), (%\S+)$", body) or re.match(r"^select i1 (%\S+), i1 true, i1 (%\S+)$", body)
+    else:
+        m = re.match(r"^and i1 (%\S+), (%\S+)$", body) or re.match(r"^select i1 (%\S+), i1 (%\S+), i1 false$", body)
+    if m:
+        return guard_implies_ne_last(cfg, m.group(1), P, first, last, depth + 1, truth) or guard_implies_ne_last(cfg, m.group(2), P, first, last, depth + 1, truth)
+    m = re.match(r"^icmp (slt|sgt) i64 (%\S+), (2|1)$", body)
+    if m and P == first and m.group(2) in cfg.defs and ((m.group(1), m.group(3), truth) in (("slt", "2", False), ("sgt", "1", True))):
+        d = cfg.defs[m.group(2)][1]
         if re.search(r"call .*@_ZSt8distanceIPcE[^(]*\(i8\* (?:noundef )?%s, i8\* (?:noundef )?%s\)" % (re.escape(first), re.escape(last)), d) or re.match(r"^sub i64 ", d):
             return True
     return False
@@ -153,12 +163,17 @@ def store_rule(fn, first, last):
                 if not mb:
                     continue
                 cond, tl, fl = mb.groups()
-                if tl == fl or fl not in cfg.dom[lab] and fl != lab:
+                if tl == fl:
                     continue
-                if len(cfg.pred.get(fl, [])) != 1:
-                    continue
-                if guard_implies_ne_last(cfg, cond, P, first, last):
-                    ok = True
+                for edge, truth in ((fl, False), (tl, True)):
+                    if edge not in cfg.dom[lab] and edge != lab:
+                        continue
+                    if len(cfg.pred.get(edge, [])) != 1:
+                        continue
+                    if guard_implies_ne_last(cfg, cond, P, first, last, 0, truth):
+                        ok = True
+                        break
+                if ok:
                     break
             if not ok:
                 probs.append("store through %s in block %s is not dominated by a failed comparison of that pointer with `last`: %s" % (P, lab, l))
